@@ -151,6 +151,31 @@ def t1Key {E : Type} (etagOf : Nat → E) (seedsOf : Nat → Nat → List Nat) (
 def t1Stage {V : Type} (seedsOf : Nat → Nat → List Nat) (compute : Nat → T1Eff → List Nat → V) (r : T1Raw) : V :=
   compute r.graph (t1Eff r) (seedsOf r.graph r.text)
 
+/-- **EtagFaithful.**  `T1Raw.graph` is the code of EVERYTHING T1 reads from the graph IN THE ORDER IT READS IT:
+the node list (id, label, tags) in iteration order and the edge list (id, src, dst, weight, rel) in INSERTION
+order — `csr` lists a node's out-edges in that order and the relaxation loop stops mid-list under `relax_cap`,
+the queue budget and the frontier cap, so two stores with equal *sets* of nodes and edges but different
+insertion orders are DIFFERENT contents.  An etag is faithful when it is injective on that ordered content
+(the code's etag is a sha1 over the ordered content; collision-freeness of sha1 is the stated assumption). -/
+def EtagFaithful {E : Type} (etagOf : Nat → E) : Prop := ∀ g g', etagOf g = etagOf g' → g = g'
+
+/-! Miniature of the order dependence (used for the negation witness of an order-insensitive digest). -/
+
+/-- Ordered adjacency: edges `(src, dst)` in insertion order (what `csr` yields). -/
+abbrev OEdges := List (Nat × Nat)
+
+/-- The relaxation loop of one seed under `relax_cap = cap`: the first `cap` out-edges in insertion order. -/
+def reachCapped (cap : Nat) (g : OEdges) (seed : Nat) : List Nat :=
+  seed :: ((g.filter (fun e => e.1 == seed)).take cap).map (·.2)
+
+/-- An order-preserving digest (the repaired `_bump_etag`) and a "canonical", sorted-id digest. -/
+def digestOrdered (g : OEdges) : OEdges := g
+def digestSorted (g : OEdges) : OEdges :=
+  Clem.Py.isort (fun a b => decide (a.1 < b.1) || (a.1 == b.1 && decide (a.2 ≤ b.2))) g
+
+/-- two stores, same content as a set, edges inserted in opposite orders -/
+def ogOf (code : Nat) : OEdges := if code = 0 then [(0, 1), (0, 2)] else if code = 1 then [(0, 2), (0, 1)] else []
+
 /-- The key as it was before the repairs: `perf_enabled` absent from `policy_caps`. -/
 def t1KeyLegacy {E : Type} (etagOf : Nat → E) (seedsOf : Nat → Nat → List Nat) (r : T1Raw) : T1Key E :=
   ⟨r.gid, etagOf r.graph, { t1Eff r with perfEnabled := false }, seedsOf r.graph r.text⟩
